@@ -8,7 +8,12 @@ suite = '--suite' in sys.argv
 d = tempfile.mkdtemp(prefix='seed_', dir='/tmp')
 res = {'mutant': mdir}
 try:
-    subprocess.run(['git', '-C', '/repo', 'worktree', 'add', '-q', '--detach', d + '/wt', 'HEAD'], check=True)
+    # a change made against an earlier tree (a later `fix:` commit rewrote the code it touches) names that tree in base.txt
+    base = 'HEAD'
+    if os.path.exists(os.path.join(mdir, 'base.txt')):
+        base = open(os.path.join(mdir, 'base.txt')).read().split()[0]
+    res['base'] = base
+    subprocess.run(['git', '-C', '/repo', 'worktree', 'add', '-q', '--detach', d + '/wt', base], check=True)
     wt = d + '/wt'
     r = subprocess.run(['/venv/bin/python', os.path.join(mdir, 'demo.py')], capture_output=True, text=True,
                        env=dict(os.environ, PYTHONPATH=wt), timeout=300)
